@@ -1609,7 +1609,7 @@ func substIdent(info *types.Info, e ast.Expr, obj types.Object, repl ast.Expr) a
 // R10.11: a cursor that is advanced by data is compared with the length before it is used as an index.
 func (c *Ctx) r1011() {
 	const rule = "R10.11"
-	c.R.Rule(rule, "package svg: an index expression v[j] whose index is a cursor — an int variable that is advanced by an amount read from the data (`j += n` with n a non-constant), not the induction variable of the enclosing loop — is dominated by the outcome `j < len(v)` of a comparison of that cursor with the length of v, with no advance of j in between. The viewBox rewriting walks its value with such a cursor; without the test a value that ends after a number (`viewBox=\"0 0 16.0\"`) is indexed at len(v) and the minifier panics")
+	c.R.Rule(rule, "package svg: an index expression v[j] (or v[j+k], k a positive constant) whose index is a cursor — an int variable that is advanced by an amount read from the data (`j += n` with n a non-constant), not the induction variable of the enclosing loop — is dominated by the outcome `j < len(v)` (`j+k < len(v)` resp.) of a comparison of that cursor with the length of v, with no advance of j in between. The viewBox rewriting walks its value with such a cursor; without the test a value that ends after a number (`viewBox=\"0 0 16.0\"`) is indexed at len(v) and the minifier panics")
 	for _, rel := range []string{"svg"} { // (in the other packages the cursor idioms differ — suffix lengths, sentinel bytes — and the rule would raise alarms on correct code)
 		pk := c.P.Pkg(rel)
 		if pk == nil {
@@ -1665,6 +1665,16 @@ func (c *Ctx) r1011() {
 						return true
 					}
 					id, ok := ast.Unparen(ix.Index).(*ast.Ident)
+					var off int64 // the index is cursor + off
+					if !ok {
+						if be, isB := ast.Unparen(ix.Index).(*ast.BinaryExpr); isB && be.Op == token.ADD {
+							if bid, isId := ast.Unparen(be.X).(*ast.Ident); isId {
+								if k, isK := intConst(info, be.Y); isK && k > 0 {
+									id, ok, off = bid, true, k
+								}
+							}
+						}
+					}
 					if !ok || !cursors[info.Uses[id]] {
 						return true
 					}
@@ -1675,8 +1685,12 @@ func (c *Ctx) r1011() {
 					j := info.Uses[id]
 					// an enclosing for statement whose condition bounds j makes j an induction variable
 					n++
-					seen[v+"["+id.Name+"]"]++
-					construct := fmt.Sprintf("%s/%s[%s]#%d below the length", fname, v, id.Name, seen[v+"["+id.Name+"]"])
+					idxText := id.Name
+					if off > 0 {
+						idxText = fmt.Sprintf("%s+%d", id.Name, off)
+					}
+					seen[v+"["+idxText+"]"]++
+					construct := fmt.Sprintf("%s/%s[%s]#%d below the length", fname, v, idxText, seen[v+"["+idxText+"]"])
 					good := false
 					for _, f := range g.DomFacts(y) {
 						if f.Test.Kind != flow.KCond {
@@ -1689,10 +1703,20 @@ func (c *Ctx) r1011() {
 						l, r := nospace(str(be.X)), nospace(str(be.Y))
 						lenv := "len(" + v + ")"
 						below := false
+						lhs, rhs := id.Name, lenv
+						if off > 0 {
+							// j+k < len(v), or j < len(v)-k
+							switch {
+							case l == fmt.Sprintf("%s+%d", id.Name, off) || r == fmt.Sprintf("%s+%d", id.Name, off):
+								lhs = fmt.Sprintf("%s+%d", id.Name, off)
+							default:
+								rhs = fmt.Sprintf("%s-%d", lenv, off)
+							}
+						}
 						switch {
-						case l == id.Name && r == lenv:
+						case l == lhs && r == rhs:
 							below = be.Op == token.LSS && f.Value || be.Op == token.GEQ && !f.Value
-						case l == lenv && r == id.Name:
+						case l == rhs && r == lhs:
 							below = be.Op == token.GTR && f.Value || be.Op == token.LEQ && !f.Value
 						}
 						if !below {
@@ -1929,4 +1953,244 @@ func (c *Ctx) r1013() {
 		}
 	}
 	c.R.Floor(rule, "temporary files created in library packages", n, 2)
+}
+
+// R10.14: the HTML minifier re-enters itself for iframe content only to a bounded depth.
+func (c *Ctx) r1014() {
+	const rule = "R10.14"
+	c.R.Rule(rule, "the content of an iframe element is raw text for the lexer and is handed, through the registry, to the HTML minifier again (media type htmlMimeBytes): a recursion that R10.12 cannot see as a self-call. An unterminated `<iframe>` makes the rest of the document its content, so `<iframe>` repeated n times recurses n deep and re-lexes the rest each time — unbounded recursion and quadratic time on a 300 kB input. In html.(*Minifier).Minify every assignment that selects htmlMimeBytes as the media type of an embedded call is reachable only through the true outcome of a comparison `d < K` (tests of one variable against different constants exclude each other) of a depth d, read from the call's parameters with strconv.Atoi, with a constant, and the parameters passed on carry strconv.Itoa(d + positive constant)")
+	pk := c.pkg(rule, "html")
+	if pk == nil {
+		return
+	}
+	info := pk.TypesInfo
+	fd := c.fn(rule, pk, "Minifier.Minify")
+	if fd == nil {
+		return
+	}
+	g := c.graph(pk, fd)
+	// depth variables: int locals defined from strconv.Atoi(<index into a map parameter>)
+	depth := map[types.Object]bool{}
+	ast.Inspect(fd.Body, func(x ast.Node) bool {
+		as, ok := x.(*ast.AssignStmt)
+		if !ok || len(as.Rhs) != 1 || len(as.Lhs) < 1 {
+			return true
+		}
+		if call, ok := ast.Unparen(as.Rhs[0]).(*ast.CallExpr); ok && calleeName(info, call) == "strconv.Atoi" && len(call.Args) == 1 {
+			if ie, ok := ast.Unparen(call.Args[0]).(*ast.IndexExpr); ok {
+				if _, isMap := info.TypeOf(ie.X).Underlying().(*types.Map); isMap {
+					if id, ok := as.Lhs[0].(*ast.Ident); ok {
+						depth[info.ObjectOf(id)] = true
+					}
+				}
+			}
+		}
+		return true
+	})
+	n := 0
+	for _, y := range g.Nodes {
+		as, ok := y.Stmt.(*ast.AssignStmt)
+		if !ok || y.Kind != flow.KStmt || len(as.Lhs) != 1 || len(as.Rhs) != 1 || nospace(str(as.Rhs[0])) != "htmlMimeBytes" {
+			continue
+		}
+		n++
+		var dv types.Object
+		// the outcome nodes "depth < K" (true) of comparisons of a depth variable with a constant
+		isBound := func(q *flow.Node) bool {
+			if (q.Kind != flow.KTrue && q.Kind != flow.KFalse) || q.Of == nil || q.Of.Kind != flow.KCond {
+				return false
+			}
+			be, ok := ast.Unparen(q.Of.Expr).(*ast.BinaryExpr)
+			if !ok {
+				return false
+			}
+			var v, k ast.Expr
+			less := false
+			switch be.Op {
+			case token.LSS, token.LEQ:
+				v, k, less = be.X, be.Y, true
+			case token.GTR, token.GEQ:
+				v, k, less = be.Y, be.X, true
+			}
+			if !less {
+				return false
+			}
+			if _, isK := intConst(info, k); !isK {
+				// the other direction: K <= d false  ⇔  d < K
+				v, k = k, v
+				if _, isK2 := intConst(info, k); !isK2 {
+					return false
+				}
+				if id, ok := ast.Unparen(v).(*ast.Ident); ok && depth[info.Uses[id]] && q.Kind == flow.KFalse {
+					dv = info.Uses[id]
+					return true
+				}
+				return false
+			}
+			if id, ok := ast.Unparen(v).(*ast.Ident); ok && depth[info.Uses[id]] && q.Kind == flow.KTrue {
+				dv = info.Uses[id]
+				return true
+			}
+			return false
+		}
+		for _, q := range g.Nodes {
+			isBound(q) // finds dv
+		}
+		y := y
+		// (search from the head of the enclosing switch case: the function is large and the correlation of tests is only
+		// needed inside the case)
+		start := g.Entry
+		for _, q := range g.Nodes {
+			if q.Kind == flow.KTrue && q.Of != nil && q.Of.Kind == flow.KCase && g.Dominates(q, y) && (start == g.Entry || g.Dominates(start, q)) {
+				start = q
+			}
+		}
+		unbounded := g.Path(flow.Search{From: []*flow.Node{start}, IncludeFrom: true, Goal: func(q *flow.Node) bool { return q == y }, Avoid: func(q *flow.Node) bool { return isBound(q) || !g.Dominates(start, q) }, Track: true})
+		bounded := dv != nil && unbounded == nil
+		c.R.Check(bounded, rule, fmt.Sprintf("html.Minifier.Minify/re-entrance for embedded HTML#%d is depth-bounded", n), c.pos(as), "behind `depth < constant`, the depth read from the parameters", "the HTML minifier hands embedded HTML (iframe content) to itself without a bound on the depth: `<iframe>` repeated 40000 times recurses 40000 deep and takes half a minute for 320 kB; deeper still the stack is exhausted")
+		if !bounded {
+			continue
+		}
+		// the parameters of that branch carry depth+k
+		passes := false
+		if blk, ok := c.P.Parent(as).(*ast.BlockStmt); ok {
+			ast.Inspect(blk, func(z ast.Node) bool {
+				call, ok := z.(*ast.CallExpr)
+				if !ok || calleeName(info, call) != "strconv.Itoa" || len(call.Args) != 1 {
+					return true
+				}
+				be, ok := ast.Unparen(call.Args[0]).(*ast.BinaryExpr)
+				if !ok || be.Op != token.ADD {
+					return true
+				}
+				if id, ok := ast.Unparen(be.X).(*ast.Ident); ok && info.Uses[id] == dv {
+					if k, isK := intConst(info, be.Y); isK && k > 0 {
+						passes = true
+					}
+				}
+				return true
+			})
+		}
+		c.R.Check(passes, rule, fmt.Sprintf("html.Minifier.Minify/re-entrance for embedded HTML#%d passes the depth on", n), c.pos(as), "the parameters carry depth+k", "the depth is tested but not passed on increased to the embedded call: every level starts at the same depth and the bound never triggers")
+	}
+	c.R.Floor(rule, "re-entrance sites of the HTML minifier", n, 1)
+}
+
+// R10.15: a look-ahead loop over the token buffer ends at the error token.
+func (c *Ctx) r1015() {
+	const rule = "R10.15"
+	c.R.Rule(rule, "TokenBuffer.Peek(i) returns the error token for every i at or past the end of the input. A loop of the html, svg or xml minifier that peeks further with a growing index — the index passed to Peek is a variable the loop changes — therefore only ends on a truncated document if it tests for that token: its condition, or a test inside it that leads to a break / return, names ErrorToken (or the loop stops at every token that is not one of an enumerated few, i.e. its continue condition is a positive test). `for next := tb.Peek(0); next.TokenType != StartTagCloseToken && …; next = tb.Peek(n)` never ends for `<style media=\"print\"` at the end of the input")
+	n := 0
+	for _, rel := range []string{"html", "svg", "xml"} {
+		pk := c.P.Pkg(rel)
+		if pk == nil {
+			continue
+		}
+		info := pk.TypesInfo
+		for _, fd := range load.FuncDecls(pk) {
+			if fd.Body == nil {
+				continue
+			}
+			seen := 0
+			ast.Inspect(fd.Body, func(x ast.Node) bool {
+				fs, ok := x.(*ast.ForStmt)
+				if !ok {
+					return true
+				}
+				// Peek with a non-constant argument, directly in this loop (not in a nested loop)
+				peeks := false
+				check := func(z ast.Node) {
+					ast.Inspect(z, func(w ast.Node) bool {
+						if inner, ok := w.(*ast.ForStmt); ok && inner != fs {
+							return false
+						}
+						if _, ok := w.(*ast.RangeStmt); ok {
+							return false
+						}
+						if ce, ok := w.(*ast.CallExpr); ok && strings.HasSuffix(calleeName(info, ce), ".(TokenBuffer).Peek") && len(ce.Args) == 1 {
+							if _, isK := intConst(info, ce.Args[0]); !isK {
+								peeks = true
+							}
+						}
+						return true
+					})
+				}
+				check(fs.Body)
+				if fs.Post != nil {
+					check(fs.Post)
+				}
+				if !peeks {
+					return true
+				}
+				n++
+				seen++
+				// exits: the loop condition, and if-conditions in the body (outside nested loops) whose body breaks or returns
+				var exitConds []ast.Expr
+				if fs.Cond != nil {
+					exitConds = append(exitConds, fs.Cond)
+				}
+				positiveContinue := false
+				ast.Inspect(fs.Body, func(w ast.Node) bool {
+					if inner, ok := w.(*ast.ForStmt); ok && inner != fs {
+						return false
+					}
+					ifs, ok := w.(*ast.IfStmt)
+					if !ok {
+						return true
+					}
+					leaves := func(b *ast.BlockStmt) (brk, cont bool) {
+						for _, st := range b.List {
+							switch s := st.(type) {
+							case *ast.BranchStmt:
+								if s.Tok == token.BREAK {
+									brk = true
+								}
+								if s.Tok == token.CONTINUE {
+									cont = true
+								}
+							case *ast.ReturnStmt:
+								brk = true
+							}
+						}
+						return
+					}
+					if brk, _ := leaves(ifs.Body); brk {
+						exitConds = append(exitConds, ifs.Cond)
+						// `if t.TokenType != K { break }`: the loop goes on only for tokens of kind K
+						if be, ok := ast.Unparen(ifs.Cond).(*ast.BinaryExpr); ok && be.Op == token.NEQ && strings.HasSuffix(nospace(str(be.X)), ".TokenType") {
+							positiveContinue = true
+						}
+					}
+					if els, ok := ifs.Else.(*ast.BlockStmt); ok {
+						if brk, _ := leaves(els); brk {
+							exitConds = append(exitConds, ifs.Cond)
+						}
+					}
+					return true
+				})
+				// a loop whose body ends in an unconditional break after `if <positive test> { continue }`
+				if len(fs.Body.List) > 0 {
+					if bs, ok := fs.Body.List[len(fs.Body.List)-1].(*ast.BranchStmt); ok && bs.Tok == token.BREAK {
+						positiveContinue = true
+					}
+				}
+				names := false
+				for _, e := range exitConds {
+					if strings.Contains(nospace(str(e)), "ErrorToken") {
+						names = true
+					}
+				}
+				// a condition of the form `next.TokenType == X && …` (|| …) continues only on the enumerated tokens
+				if fs.Cond != nil && !names {
+					cs := nospace(str(fs.Cond))
+					if strings.Contains(cs, ".TokenType==") && !strings.Contains(cs, ".TokenType!=") {
+						positiveContinue = true
+					}
+				}
+				c.R.Check(names || positiveContinue, rule, fmt.Sprintf("%s.%s/look-ahead loop#%d ends at the error token", pk.Name, load.FuncName(fd), seen), c.pos(fs), "an exit tests ErrorToken, or the loop continues only on enumerated tokens", "the loop peeks further and further and none of its exits tests for the error token, which Peek returns for ever once the input has ended: a document that ends inside the construct the loop scans never lets the minifier return")
+				return true
+			})
+		}
+	}
+	c.R.Floor(rule, "look-ahead loops with a growing index", n, 5)
 }
